@@ -493,6 +493,8 @@ impl LspServer {
                         }
                     } else {
                         log::trace!("unknown request: {:?}", req);
+                        // MethodNotFound: every request gets a response
+                        ctx.send_error(req.id, -32601, format!("unknown request: {}", req.method))?;
                     }
                 }
             },
